@@ -389,3 +389,38 @@ class SharedBCsOtherVariable(_StateOb):
         if part == 'flags':
             return []
         return inv_claims(w, S['cv2'], P, part, 'other') + inv_claims(w, S['cv'], P, part, 'cv')
+
+
+class UpdateValue(_StateOb):
+    """update_value(other): the receiver takes the other's cell values (incl. ghosts) into ITS OWN storage: no
+    buffer is shared afterwards, the other variable is not written, the receiver is marked dirty"""
+    name = 'CellVariable.update_value/copies_into_own_storage'
+    props = ('C09', 'C14')
+    grids = ('Grid1D', 'Grid2D', 'Grid3D')
+
+    def parts(self, w):
+        return ['flags', 'interior']
+
+    def setup(self, w):
+        cv, _ = make_cellvar(w, 'phi0')
+        other, _ = make_cellvar(w, 'oth')
+        cv.apply_BCs()
+        other.apply_BCs()
+        before_other = w.np.copy(other._value)
+        n0 = len(CTX.writes)
+        ob_id = other._value.buf.id if w.symbolic else None
+        cv.update_value(other)
+        wrote_other = any(x[0] == ob_id for x in CTX.writes[n0:]) if w.symbolic else False
+        return dict(cv=cv, other=other, before=before_other, wrote_other=wrote_other)
+
+    def claims(self, w, S, P, part):
+        cv, other = S['cv'], S['other']
+        if part == 'flags':
+            if w.symbolic:
+                sep = cv._value.buf.id != other._value.buf.id
+            else:
+                sep = not w.np.shares_memory(cv._value, other._value)
+            ok = sep and (not S['wrote_other']) and (not is_clean(cv)) and is_clean(other)
+            return [('own_storage_dirty_other_untouched', self.flag(w, ok))]
+        return [('values_taken_over', w.eq(w.at(cv._value, P), w.at(S['before'], P))),
+                ('other_unchanged', w.eq(w.at(other._value, P), w.at(S['before'], P)))]
